@@ -32,7 +32,7 @@ git -C /repo apply $out/patch.diff || { echo "patch does not apply to /repo"; ex
 det=""
 for c in "$@"; do
   o=$(timeout 1500 /verif/check $c quick 2>/verif/logs/seed_${name}_$c.err); code=$?
-  sig=$(grep -E '^\s+\[' /verif/logs/seed_${name}_$c.err | head -1 | sed 's/^\s*//' | cut -c1-160)
+  sig=$(grep -a -E '^\s+\[' /verif/logs/seed_${name}_$c.err | head -1 | sed 's/^\s*//' | cut -c1-160)
   echo "   $c: exit=$code $sig"
   det="$det{\"check\":\"$c\",\"exit\":$code,\"first_signature\":$(python3 -c 'import json,sys; print(json.dumps(sys.argv[1]))' "$sig")},"
 done
